@@ -365,7 +365,7 @@ class ControlParser(ArgumentParser):
                 flag = f"-{letter.upper()}"
                 self._flags.add(letter.upper())
             name_or_flags = [long] if flag is None else [flag, long]
-            if parameter.annotation is bool:
+            if parameter.annotation is bool or parameter.annotation == "bool":
                 # If we are dealing with a boolean parameter, always use the
                 # 'store_true' action. Even if the parameter's default value is
                 # `True`, this will make the parser argument's default `False`.
@@ -447,6 +447,32 @@ def _get_arg_type_wrapper(cls: Type[Any]) -> Callable[[Any], Any]:
     return wrapper
 
 
+_POSTPONED_SIMPLE = {"int": int, "float": float, "str": str, "bool": bool}
+
+
+def _resolve_postponed_annotation(annotation: str) -> Any:
+    """
+    Maps a postponed (string) annotation to the object the parser works with.
+
+    With `from __future__ import annotations` in the module that defines the
+    pool classes, `inspect.signature` reports annotations as plain strings.
+    """
+    text = annotation.replace(" ", "")
+    if text.endswith("|None"):
+        text = text[: -len("|None")]
+    if text in _POSTPONED_SIMPLE:
+        return _POSTPONED_SIMPLE[text]
+    if text in ("EndCB", "CancelCB", "AnyCoroutineFunc") or text.startswith(
+        "Callable["
+    ):
+        return AnyCoroutineFunc
+    if text in ("ArgsT", "KwArgsT", "_P.args", "_P.kwargs") or text.startswith(
+        "Iterable["
+    ):
+        return ArgsT
+    return str
+
+
 def _get_type_from_annotation(annotation: Any) -> Callable[[Any], Any]:
     """
     Returns a type conversion function based on the `annotation` passed.
@@ -459,6 +485,8 @@ def _get_type_from_annotation(annotation: Any) -> Callable[[Any], Any]:
     `Iterable`- or args/kwargs-type annotations use `ast.literal_eval`.
     Others pass unchanged (but still wrapped with `_get_arg_type_wrapper`).
     """
+    if isinstance(annotation, str):
+        annotation = _resolve_postponed_annotation(annotation)
     if any(annotation is t for t in (AnyCoroutineFunc, EndCB, CancelCB)):
         annotation = resolve_dotted_path
     if any(
